@@ -96,6 +96,7 @@ type Result struct {
 	PathModels   []map[string]string `json:"path_models,omitempty"`
 	GuardAccessors []string          `json:"guard_accessors,omitempty"`
 	GuardChecks  int                 `json:"guard_checks"`
+	Blocked      []string            `json:"blocked,omitempty"`
 }
 
 // ---------------------------------------------------------------------------
@@ -144,6 +145,10 @@ type State struct {
 	Mutex   map[int]bool // ghost held bits by object id
 	Log     []string
 	Spec    bool // speculative (if-conversion) execution: anything needing the solver aborts
+	Thread      int // current logical thread (vThread), 0 = none
+	ThreadHeap0 int // heap size when the current thread started (younger objects are its own allocations)
+	SelN    int         // number of select statements executed on this path
+	WG      map[int]int // ghost sync.WaitGroup counters by object key
 }
 
 func (st *State) clone() *State {
@@ -157,6 +162,14 @@ func (st *State) clone() *State {
 		Clock:   st.Clock,
 		ClockN:  st.ClockN,
 		Log:     st.Log[:len(st.Log):len(st.Log)],
+		SelN:    st.SelN,
+		Thread:  st.Thread, ThreadHeap0: st.ThreadHeap0,
+	}
+	if len(st.WG) > 0 {
+		n.WG = make(map[int]int, len(st.WG))
+		for k, v := range st.WG {
+			n.WG[k] = v
+		}
 	}
 	n.Globals = make(map[*ssa.Global]int, len(st.Globals))
 	for k, v := range st.Globals {
@@ -208,6 +221,7 @@ type Interp struct {
 	stubSeen map[string]bool
 	unsupSeen map[string]bool
 	unwindSeen map[string]bool
+	blockedSeen map[string]bool
 	candSeen map[string]int
 	rnUsed   bool // some float operation was abstracted by the uninterpreted rounding function
 	built map[*ssa.Package]bool
@@ -224,7 +238,7 @@ func NewInterp(prog *ssa.Program, sol *Solver, cfg Config) *Interp {
 	return &Interp{Prog: prog, Cfg: cfg, Sol: sol,
 		Res: &Result{Obligations: map[string]*OblStat{}, Reach: map[string]int{}, Inputs: map[string][2]string{}, Observes: map[string][]string{}},
 		infos: map[*ssa.Function]*fnInfo{}, fnSeen: map[string]bool{}, stubSeen: map[string]bool{},
-		unsupSeen: map[string]bool{}, unwindSeen: map[string]bool{}, candSeen: map[string]int{},
+		unsupSeen: map[string]bool{}, unwindSeen: map[string]bool{}, blockedSeen: map[string]bool{}, candSeen: map[string]int{},
 		built: map[*ssa.Package]bool{}, strIDs: map[string]int64{}, pdoms: map[*ssa.Function]*pdomInfo{}, noConv: map[*ssa.If]int{}}
 }
 
@@ -1118,7 +1132,7 @@ func merge(c *Term, a, b Value) (Value, bool) {
 		return nil, false
 	case StrV:
 		y, ok := b.(StrV)
-		if ok && x.Atom == nil && y.Atom == nil && x.Fmt == nil && y.Fmt == nil && x.Bytes == nil && y.Bytes == nil && x.S == y.S {
+		if ok && x.Atom == nil && y.Atom == nil && x.Fmt == nil && y.Fmt == nil && x.Bytes == nil && y.Bytes == nil && x.Parts == nil && y.Parts == nil && x.S == y.S {
 			return x, true
 		}
 		if ok && x.Atom != nil && y.Atom != nil {
@@ -1198,8 +1212,8 @@ func (in *Interp) strTerm(s StrV) *Term {
 	if s.Atom != nil {
 		return s.Atom
 	}
-	if s.Fmt != nil || s.Bytes != nil {
-		panic(unsupported("comparison of opaque/byte string"))
+	if s.Fmt != nil || s.Bytes != nil || s.Parts != nil {
+		panic(unsupported("comparison of opaque/byte/structured string"))
 	}
 	id, ok := in.strIDs[s.S]
 	if !ok {
@@ -1248,8 +1262,20 @@ func (in *Interp) valEq(a, b Value) *Term {
 		return r
 	case StrV:
 		y := b.(StrV)
-		if x.Atom == nil && y.Atom == nil && x.Fmt == nil && y.Fmt == nil && x.Bytes == nil && y.Bytes == nil {
+		if x.Atom == nil && y.Atom == nil && x.Fmt == nil && y.Fmt == nil && x.Bytes == nil && y.Bytes == nil && x.Parts == nil && y.Parts == nil {
 			return BoolC(x.S == y.S)
+		}
+		if x.Parts != nil || y.Parts != nil {
+			xp, ok1 := partsOf(x)
+			yp, ok2 := partsOf(y)
+			if !ok1 || !ok2 {
+				panic(unsupported("comparison of a structured string with an opaque one"))
+			}
+			r, ok := eqParts(xp, yp)
+			if !ok {
+				panic(unsupported("comparison of structured strings: number not delimited"))
+			}
+			return r
 		}
 		if x.Bytes != nil || y.Bytes != nil {
 			return in.bytesEq(x, y)
@@ -1341,8 +1367,8 @@ func strBytes(s StrV) []*Term {
 	if s.Bytes != nil {
 		return s.Bytes
 	}
-	if s.Atom != nil || s.Fmt != nil {
-		panic(unsupported("bytes of opaque string"))
+	if s.Atom != nil || s.Fmt != nil || s.Parts != nil {
+		panic(unsupported("bytes of opaque/structured string"))
 	}
 	r := make([]*Term, len(s.S))
 	for i := 0; i < len(s.S); i++ {
